@@ -29,3 +29,13 @@ Print Assumptions C04_refuted_shared_remote_abstract.
 (* non-vacuity: on the same federation a neighbouring query produces only valid sub-queries *)
 Example C04_control : exists o, gw q_recurring_aliased = Ok o /\ requests_valid world_t (oc_requests o) = true.
 Proof. exact control_requests_valid. Qed.
+
+(* "never asks for the same id twice within one lookup", and lookups are queries: for EVERY generation, world (data, faults),
+   operation, variables, permission set, limit and fuel, every downstream request of the gateway model carries duplicate-free
+   ids (batches of a single-entity lookup included; what goes over the wire is the id itself or the document does not lex:
+   Proofs/WireIdent.v), and every entity lookup is sent as a query. *)
+From V Require Import Proofs.ExecIdsProofs Proofs.ExecReqProofs.
+Theorem C04_ids_never_repeated : forall G fschema W op vars P max fuel oc,
+  gateway G fschema W op vars P max fuel = Ok oc -> Forall (fun rq => NoDup (rq_ids rq)) (oc_requests oc).
+Proof. exact gateway_ids. Qed.
+Print Assumptions C04_ids_never_repeated.
